@@ -45,9 +45,16 @@ class _Continue(Exception):
 
 PURE_BUILTINS = {"len": len, "str": str, "int": int, "list": list, "dict": dict, "tuple": tuple, "range": range, "enumerate": enumerate, "zip": zip,
                  "sorted": sorted, "reversed": reversed, "min": min, "max": max, "any": any, "all": all, "bool": bool, "set": set, "frozenset": frozenset,
-                 "abs": abs, "sum": sum, "repr": repr, "ord": ord, "chr": chr, "bytes": bytes}
+                 "abs": abs, "sum": sum, "repr": repr, "ord": ord, "chr": chr, "bytes": bytes,
+                 "filter": lambda f, it: [x for x in it if x] if f is None else _undecided("filter with a function"), "divmod": divmod}
+
+
+def _undecided(what):
+    raise Undecided("minieval: %s" % what)
 PURE_METHODS = {
-    str: {"split", "rsplit", "startswith", "endswith", "join", "strip", "lstrip", "rstrip", "lower", "upper", "replace", "format", "find", "index", "count",
+    _re.Pattern: {"search", "match", "fullmatch", "findall", "sub", "split"},
+    _re.Match: {"group", "groups", "groupdict", "start", "end", "span"},
+    str: {"split", "rsplit", "startswith", "endswith", "join", "strip", "lstrip", "rstrip", "lower", "upper", "replace", "format", "find", "index", "count", "translate", "rfind", "removeprefix", "removesuffix", "casefold",
           "partition", "rpartition", "isdigit", "isalpha", "isalnum", "encode", "title", "splitlines", "zfill"},
     bytes: {"split", "rsplit", "startswith", "endswith", "join", "strip", "lstrip", "rstrip", "replace", "find", "decode", "hex", "count", "partition", "rpartition", "index"},
     list: {"append", "extend", "insert", "pop", "index", "count", "copy", "reverse", "sort", "remove", "clear"},
@@ -60,7 +67,8 @@ import struct as _struct
 import types as _types
 import base64 as _b64
 import binascii as _binascii
-PURE_FUNCS = {"re.escape": _re.escape, "struct.unpack": _struct.unpack, "struct.unpack_from": _struct.unpack_from, "struct.pack": _struct.pack, "struct.calcsize": _struct.calcsize,
+PURE_FUNCS = {"re.escape": _re.escape, "re.compile": _re.compile, "re.search": _re.search, "re.match": _re.match, "re.fullmatch": _re.fullmatch, "re.sub": _re.sub, "re.split": _re.split,
+              "re.findall": _re.findall, "str.maketrans": str.maketrans, "bytes.maketrans": bytes.maketrans, "struct.unpack": _struct.unpack, "struct.unpack_from": _struct.unpack_from, "struct.pack": _struct.pack, "struct.calcsize": _struct.calcsize,
               "int.from_bytes": int.from_bytes, "base64.b64encode": _b64.b64encode, "base64.b64decode": _b64.b64decode,
               "base64.urlsafe_b64encode": _b64.urlsafe_b64encode, "base64.urlsafe_b64decode": _b64.urlsafe_b64decode}
 # library exception -> (name the program could catch it by, names of its bases the program could catch it by)
